@@ -540,9 +540,10 @@ def aSetWrite (ok : Bool) (s : State) : State := { s with writeOk := ok }
 
 def step (s : State) : Ev → State
   | .callStart =>
-    -- the guard looks at the lifecycle state only: "Connection can only be used once"
+    -- "Connection can only be used once": the guard refuses a used lifecycle state AND a start phase that is still in
+    -- progress (`_start_connect_future is not None`; the state only advances when the phase completes)
     if s.st ≠ .init then aRefused s
-    else if s.start ≠ .idle then s      -- (a concurrent duplicate call: outside the scenarios, see DESIGN.md)
+    else if s.start ≠ .idle then aRefused s
     else aStartBegin s
   | .resolved ok => if s.start = .awaitResolve ∧ s.resolveRes = .none then aResolveSet ok s else s
   | .sockDone ok => if s.start = .awaitSocket ∧ s.sockRes = .none then aSockSet ok s else s
@@ -551,7 +552,7 @@ def step (s : State) : Ev → State
   | .cancelStart => if s.start = .awaitResolve ∨ s.start = .awaitSocket then aUserCancelStart s else s
   | .callFinish =>
     if s.st ≠ .sockOpen then aRefused s
-    else if s.finish ≠ .idle then s     -- (a concurrent duplicate call: outside the scenarios)
+    else if s.finish ≠ .idle then aRefused s     -- a finish phase still in progress (`_finish_connect_future is not None`)
     else aFinishBegin s
   | .connMade =>
     if s.finish = .awaitTransport ∧ !s.helperMade ∧ !s.transportWaiter then
